@@ -26,6 +26,42 @@ fn main() {
         let code = props::c20::child_main(args.get(1).map(|s| s.as_str()).unwrap_or(""), args.get(2).map(|s| s.as_str()).unwrap_or(""));
         std::process::exit(code);
     }
+    if args[0] == "--emit-corpus" {
+        // writes small seed corpora for the libFuzzer targets (committed under /verif/corpus)
+        let dir = PathBuf::from(args.get(1).cloned().unwrap_or_else(|| "/verif/corpus".into()));
+        let mut x = 0x2545f4914f6cdd1du64;
+        let mut next = move || {
+            x ^= x << 13;
+            x ^= x >> 7;
+            x ^= x << 17;
+            x
+        };
+        for target in ["history", "elide", "ops"] {
+            let d = dir.join(target);
+            let _ = std::fs::create_dir_all(&d);
+            for i in 0..24 {
+                let n = 150 + (next() % 450) as usize;
+                let bytes: Vec<u8> = (0..n).map(|_| (next() >> 24) as u8).collect();
+                let _ = std::fs::write(d.join(format!("seed{:02}.bin", i)), bytes);
+            }
+        }
+        let d = dir.join("decode");
+        let _ = std::fs::create_dir_all(&d);
+        for i in 0..48 {
+            let n = 100 + (next() % 400) as usize;
+            let bytes: Vec<u8> = (0..n).map(|_| (next() >> 24) as u8).collect();
+            let mut src = envverif::src::Src::new(&bytes);
+            let mut cfg = envverif::gen::GenCfg::new(4, 30);
+            let spec = envverif::gen::gen_spec(&mut src, &mut cfg);
+            let enc = envverif::bridge::spec_model(&spec).tagged();
+            let _ = std::fs::write(d.join(format!("valid{:02}.bin", i)), enc);
+        }
+        // vectors of the repository's core_tests: legacy #6.24 leaf, unknown-tag leaf
+        let _ = std::fs::write(d.join("legacy-leaf.bin"), [0xd8, 0xc8, 0xd8, 0x18, 0x18, 0x2a]);
+        let _ = std::fs::write(d.join("unknown-tag-leaf.bin"), [0xd8, 0xc8, 0xd8, 0xc9, 0xd9, 0x03, 0xe7, 0x63, 0x66, 0x6f, 0x6f]);
+        println!("corpora written under {}", dir.display());
+        return;
+    }
     if args[0] == "--c20-part-b" {
         let cases = args.get(1).and_then(|s| s.parse().ok()).unwrap_or(100);
         let seed = args.get(2).and_then(|s| s.parse().ok()).unwrap_or(1);
